@@ -3,7 +3,7 @@ use crate::{
         fragment_buffer::{FragmentSpan, FragmentTree},
         Fragment, StringBuffer,
     },
-    fragment::CellText,
+    fragment::{escape_html_text, CellText},
     util::parser,
     Merge, Settings,
 };
@@ -263,6 +263,10 @@ impl CellBuffer {
             .css_styles
             .iter()
             .map(|(class, styles)| {
+                // the style sheet is rendered verbatim as the text node of the style element,
+                // the declarations come from the input and must be escaped like any other text
+                #[cfg(not(feature = "with-dom"))]
+                let styles = escape_html_text(styles);
                 format!(".svgbob .{}{{ {} }}", class, styles)
             })
             .collect();
